@@ -332,8 +332,8 @@ func runStore(c storeCase) (msg string, labels []string, nontrivial bool) {
 	}
 	es := events.NewVerifEventStore(c.Size)
 	lab := map[string]bool{}
-	inForce := c.Size     // size the current backing array was made with
-	configured := c.Size  // size set by the last SetStoreSize
+	inForce := c.Size    // size the current backing array was made with
+	configured := c.Size // size set by the last SetStoreSize
 	var pending []*si.EventRecord
 	seq := 0
 	resizedSinceCollect := false
@@ -559,9 +559,9 @@ func TestC20Stream(t *testing.T) {
 type cstreamCase struct {
 	Capacity uint64   `json:"capacity"`
 	Total    int      `json:"total"`
-	SubAt    []int    `json:"sub_at"`  // subscribe once this many events were published
-	Counts   []uint64 `json:"counts"`  // history requested
-	Pause    []int    `json:"pause"`   // publisher yields after these many events
+	SubAt    []int    `json:"sub_at"` // subscribe once this many events were published
+	Counts   []uint64 `json:"counts"` // history requested
+	Pause    []int    `json:"pause"`  // publisher yields after these many events
 }
 
 func eventNo(e *si.EventRecord) int {
